@@ -29,7 +29,6 @@ MANIFEST = dict(
           'the same command lines), '
           'C09_unambiguous (outside the known mechanisms), C09_fallback_transparent_spec (for the specification Spec/Meaning.v and '
           'the model of the level pass, replacing every || by | changes neither the matched lines nor, up to levels, the expected '
-<<<<<<< HEAD
           'items), C09_candidates_monotone_partial; Props/C09c.v: C09_fallback_transparent_complete and C09_candidates_monotone_spec '
           '(every required/allowed candidate of the | variant at a cursor position is one of the || grammar unless Spec/Undercut.v '
           'lists it as undercut by a strictly earlier level, on both tiers: || branches and pieces inside a word), '
@@ -38,18 +37,12 @@ MANIFEST = dict(
           'automaton of every generated grammar (biased to || branches and call variants starting with the same literal, within-word '
           'expressions repeated with permuted alternatives or through definitions), and the || script against the | script in real '
           'bash (same matched lines, candidates monotone in both directions with the undercut exception computed by the extracted '
-          'specification).'),
-=======
-          'items), C09_candidates_monotone_partial. Props/C09b.v, on the automata Driver.compile_valid builds: '
+          'specification). Props/C09b.v, on the automata Driver.compile_valid builds: '
           'C09_fallback_transparent_compiled (the automaton of a grammar and of its | variant accept the same item words up to levels and '
           'descriptions, match the same typed command lines and expect the same items after them; outside the known mechanisms the walk is '
-          'unique) and C09_unambiguous_compiled (grammar side: two readings of the same typed words have the same continuations). '
-          'The implementation is decided directly: extracted Ambig.find on Rust\'s minimised '
-          'automaton of every generated grammar (biased to || branches and call variants starting with the same literal, within-word '
-          'expressions repeated with permuted alternatives or through definitions), and the || script against the | script in real '
-          'bash (same matched lines, candidates monotone); and Rust\'s minimised automata of g and of bar(g), levels and descriptions erased, '
-          'are both judged against the normal form of g\'s validated tree by the proved judge Spec.Lang.equiv_dfa_expr.'),
->>>>>>> wp-regex
+          'unique) and C09_unambiguous_compiled (grammar side: two readings of the same typed words have the same continuations); '
+          'Rust\'s minimised automata of g and of bar(g), levels and descriptions erased, are both judged against the normal form of '
+          'g\'s validated tree by the proved judge Spec.Lang.equiv_dfa_expr.'),
     design='6 C09',
     technique='Coq-proved decision procedure run on the implementation\'s automaton + differential execution of || vs | scripts in real bash')
 
